@@ -377,10 +377,11 @@ state.allocate_ty_var_exec()
         ensures
             r is Ok,
             // the value span starts at bit projection * 256 EXACTLY (no wrap-around) and is one word wide
-            mapping_site(**value) matches Some((k, slot, p)) ==> proj(p) * 256 <= usize::MAX ==>
+            mapping_site(**value) matches Some((k, slot, p)) ==> proj(p) * 256 + 256 <= usize::MAX ==>
                 access_logged(inferred(old(state)), inferred(final(state)), fresh_tv(old(state)), **value, k, slot, proj(p) * 256),   //@ob C12.arith.mapping_access.span_offset_exact
-            // a projection whose bit offset does not fit says nothing (it must not wrap into a small offset)
-            mapping_site(**value) matches Some((k, slot, p)) ==> proj(p) * 256 > usize::MAX ==>
+            // a projection whose word [offset, offset + 256) cannot be expressed says nothing (it must not wrap into a small
+            // offset, and its END must be representable too: the members' spans are added up when their types meet — D27)
+            mapping_site(**value) matches Some((k, slot, p)) ==> proj(p) * 256 + 256 > usize::MAX ==>
                 inferred(final(state)) == inferred(old(state)),                                  //@ob C12.arith.mapping_access.unrepresentable_projection_infers_nothing
             mapping_site(**value) is None ==> inferred(final(state)) == inferred(old(state)),       //@ob C12.arith.mapping_access.only_on_mapping_access
 //@end
